@@ -236,7 +236,14 @@ def numeric_checks(scn, trace, res):
     hier = scn['tree']['hier']
     rh = run_hier(scn)
     qpos = {g: i for i, g in enumerate(scn['qgenes'])}
-    Q = scn['Q']
+    Q = scn.get('Qf', scn['Q'])
+    if scn['cfg'].get('norm') == 'raw':
+        # the mapper converts raw counts to log2(CPM+1) over ALL genes of the file before anything else
+        import numpy as _np
+        X = _np.array(Q, dtype=float).reshape((len(scn['cells']), len(scn['qgenes'])))
+        den = X.sum(axis=1)
+        den = _np.where(den > 0, den, 1.0)
+        Q = _np.log2(1.0 + 1e6 * X / den[:, None]).tolist()
     cells = scn['cells']
     pos_of = {c: i for i, c in enumerate(cells)}
     undetermined = 0
@@ -260,7 +267,8 @@ def numeric_checks(scn, trace, res):
             for d in e['draws']:
                 cs = sorted(((pearson([q[i] for i in d], [M[lf][i] for i in d]), lf) for lf in M),
                             reverse=True)
-                if len(cs) > 1 and cs[0][0] - cs[1][0] < 1e-9 and typ[cs[0][1]] != typ[cs[1][1]]:
+                # near-tie rule: every leaf within 1e-9 of the best must belong to the same child
+                if len({typ[lf] for c, lf in cs if cs[0][0] - c < 1e-9}) > 1:
                     det = False
                     break
                 t = typ[cs[0][1]]
